@@ -9,7 +9,7 @@ Variables folder id : Type.
 Variable folder_eqb : folder -> folder -> bool.
 Variable id_eqb : id -> id -> bool.
 
-Record doc := mkDoc { d_folder : folder; d_id : id; d_label : N; d_kind : N; d_fav : bool }.
+Record doc := mkDoc { d_folder : folder; d_id : id; d_label : N; d_kind : N; d_fav : bool; d_tags : list N }.
 Definition same_key (f : folder) (i : id) (d : doc) : bool :=
   folder_eqb (d_folder d) f && id_eqb (d_id d) i.
 
@@ -27,9 +27,17 @@ Fixpoint drop {K} (eqb : K -> K -> bool) (k : K) (m : list (K * nat)) : list (K 
 Fixpoint look {K} (eqb : K -> K -> bool) (k : K) (m : list (K * nat)) : nat :=
   match m with [] => 0 | (j, n) :: r => if eqb j k then n else look eqb k r end.
 
+(* [ix_archive]: the archive folder, whose documents are left out of the per-kind counters
+   (DocumentCount::is_archived); fixed for the life of the index *)
 Record index := mkIndex {
-  docs : list doc; c_vaults : list (folder * nat); c_kinds : list (N * nat); c_favs : nat }.
-Definition empty_index : index := mkIndex [] [] [] 0.
+  docs : list doc; c_vaults : list (folder * nat); c_kinds : list (N * nat); c_favs : nat;
+  c_tags : list (N * nat); ix_archive : option folder }.
+Definition new_index (a : option folder) : index := mkIndex [] [] [] 0 [] a.
+Definition empty_index : index := new_index None.
+Definition is_arch (x : index) (f : folder) : bool :=
+  match ix_archive x with Some a => folder_eqb f a | None => false end.
+Definition bump_all (ts : list N) (m : list (N * nat)) : list (N * nat) := fold_right (bump N.eqb) m ts.
+Definition drop_all (ts : list N) (m : list (N * nat)) : list (N * nat) := fold_right (drop N.eqb) m ts.
 
 Definition has_doc (f : folder) (i : id) (x : index) : bool := existsb (same_key f i) (docs x).
 
@@ -37,7 +45,9 @@ Definition has_doc (f : folder) (i : id) (x : index) : bool := existsb (same_key
 Definition ix_add (x : index) (d : doc) : index :=
   if has_doc (d_folder d) (d_id d) x then x
   else mkIndex (docs x ++ [d]) (bump folder_eqb (d_folder d) (c_vaults x))
-               (bump N.eqb (d_kind d) (c_kinds x)) (if d_fav d then S (c_favs x) else c_favs x).
+               (if is_arch x (d_folder d) then c_kinds x else bump N.eqb (d_kind d) (c_kinds x))
+               (if d_fav d then S (c_favs x) else c_favs x)
+               (bump_all (d_tags d) (c_tags x)) (ix_archive x).
 
 (* remove: counters only change when a document was removed (fix 'search index counters') *)
 Definition ix_remove (x : index) (f : folder) (i : id) : index :=
@@ -45,7 +55,9 @@ Definition ix_remove (x : index) (f : folder) (i : id) : index :=
   | None => x
   | Some d =>
       mkIndex (filter (fun e => negb (same_key f i e)) (docs x)) (drop folder_eqb f (c_vaults x))
-              (drop N.eqb (d_kind d) (c_kinds x)) (if d_fav d then Nat.pred (c_favs x) else c_favs x)
+              (if is_arch x f then c_kinds x else drop N.eqb (d_kind d) (c_kinds x))
+              (if d_fav d then Nat.pred (c_favs x) else c_favs x)
+              (drop_all (d_tags d) (c_tags x)) (ix_archive x)
   end.
 
 Definition ix_update (x : index) (d : doc) : index := ix_add (ix_remove x (d_folder d) (d_id d)) d.
@@ -54,6 +66,8 @@ Definition ix_update (x : index) (d : doc) : index := ix_add (ix_remove x (d_fol
 Definition count_folder (f : folder) (x : index) : nat :=
   length (filter (fun d => folder_eqb (d_folder d) f) (docs x)).
 Definition count_kind (k : N) (x : index) : nat :=
-  length (filter (fun d => N.eqb (d_kind d) k) (docs x)).
+  length (filter (fun d => N.eqb (d_kind d) k && negb (is_arch x (d_folder d))) (docs x)).
+Definition count_tag (t : N) (x : index) : nat :=
+  length (filter (fun k => N.eqb k t) (flat_map d_tags (docs x))).
 Definition count_favs (x : index) : nat := length (filter d_fav (docs x)).
 End Search.
